@@ -32,6 +32,15 @@ def rule_guard_completeness(rep, sh):
         head = [r for r in rels if r is not None and r[0] == 'call' and r[1] == 'getClauseAtomName']
         main = [r for r in rels if r is not None and S.role_of(r) == 'Main']
         ok = len(head) >= 1 and (len(main) >= 1 if rec else True)
+        if not main and not S.guard_has(p, 'isRecursive()', positive=False):
+            # the full relation may be left unchecked ONLY when the translator is in non-recursive mode (then the clause inserts into the
+            # full relation itself); any other criterion (e.g. a syntactic test of the clause) lets a rule of a recursive stratum
+            # insert into @new_R while R already holds the key
+            rep.ob('R2-main-guard-omitted-only-in-non-recursive-mode', label, False, f.where,
+                   'a path builds the guards without checking the full relation, and that path is not selected by !isRecursive() '
+                   '(guards assumed: %s)' % [show(g)[:40] for g in p.guards][:4])
+        else:
+            rep.ob('R2-main-guard-omitted-only-in-non-recursive-mode', label, True, f.where, '')
         rep.ob('R2-guard-covers-head-and-main', label, ok, f.where,
                '' if ok else 'existence checks are made on %s; a %s rule must check the relation it inserts into%s' % (
                    [show(r) for r in rels], 'recursive' if rec else 'non-recursive', ' AND the full relation' if rec else ''))
@@ -95,7 +104,72 @@ def rule_check_then_insert(rep, eng, syn):
            '' if ok else 'the emitted insert is not inside the block of `if (<condition>)`: %s' % t[:160])
 
 
+def rule_constraint_dedup(rep, fc):
+    """R4: getFunctionalDependencies skips a dependency that is `equivalentConstraint` to one already imposed -- sound only if that
+    relation is EQUALITY OF THE KEY SETS (a one-way containment test drops the smaller key: it is then never enforced)"""
+    fs = [f for f in fc.functions if f.name == 'equivalentConstraint' and not f.is_lambda]
+    if not fs:
+        rep.analysis_broken('FunctionalConstraint::equivalentConstraint not found')
+        return
+    f = fs[0]
+    other = f.d['params'][0]['name']
+    sets = {}
+    for lp in [m for m in f.walk() if m['k'] == 'CXXForRangeStmt']:
+        rng = expr_key(strip(kids(kids(kids(lp)[0])[0])[0], casts=True)) if kids(kids(kids(lp)[0])[0]) else ''
+        for c in walk(kids(lp)[6]):
+            if is_call(c, 'insert') and any(is_call(x, 'getName') for x in walk(c)):
+                sets[expr_key(call_obj(c))] = 'other' if rng.startswith(other + '.') or rng == other + '.keys' else 'this'
+    rets = [m for m in f.walk() if m['k'] == 'ReturnStmt' and kids(m)]
+    ok, why = False, ''
+    if len(rets) == 1:
+        e = strip(kids(rets[0])[0], casts=True)
+        while e['k'] in ('ExprWithCleanups', 'ParenExpr') and kids(e):
+            e = strip(kids(e)[0], casts=True)
+        if e['k'] == 'CXXOperatorCallExpr' and e.get('op') == '==':
+            a, b = [expr_key(strip(x, casts=True)) for x in call_args(e)]
+            ok = {sets.get(a), sets.get(b)} == {'this', 'other'}
+    if not ok:
+        # recognise the one-way shape explicitly so that the report says what is wrong
+        oneway = len(sets) == 1 and any(is_call(m, 'find') for m in f.walk())
+        why = ('only the containment of one key in the other is tested (keys %s): for `choice-domain (a,b), a` the key a is treated as already imposed and never enforced'
+               % sorted(sets)) if oneway else 'equivalentConstraint is not recognisable as equality of the two key-name sets'
+        if not oneway and not sets:
+            rep.analysis_broken('equivalentConstraint: shape not understood')
+            return
+    rep.ob('R4-constraint-dedup-is-set-equality', 'FunctionalConstraint::equivalentConstraint', ok, f.where, why)
+
+
+def rule_entry_paths(rep, ut, sc):
+    """R5: every way tuples enter a relation with functional dependencies is guarded.  Rule heads go through createInsertion (R2).  The other
+    entry is the fact loader: either the translator's load statement or a semantic check must take the dependencies into account."""
+    fs = [f for f in ut.functions if f.name == 'generateLoadRelation' and not f.is_lambda]
+    if not fs:
+        rep.analysis_broken('UnitTranslator::generateLoadRelation not found')
+        return
+    f = fs[0]
+    in_loader = any(is_call(m, 'getFunctionalDependencies') for m in f.walk())
+    in_checker = False
+    for g in sc.functions:
+        if g.is_lambda or g.cfg is None:
+            continue
+        for e in [m for m in g.walk() if is_call(m, 'addError')]:
+            # one error report that is reached only for (input relation) AND (has functional dependencies)
+            fd = guarded_by(g, e, lambda core: any(is_call(x, 'getFunctionalDependencies') for x in walk(core)))[0] or \
+                not_guarded_by(g, e, lambda core: any(is_call(x, 'getFunctionalDependencies') for x in walk(core)))
+            io = guarded_by(g, e, lambda core: any(is_call(x, 'isInput') or is_call(x, 'isIO') for x in walk(core)))[0]
+            if fd and io:
+                in_checker = True
+    ok = in_loader or in_checker
+    rep.ob('R5-every-entry-path-guarded', 'io-load', ok, f.where,
+           '' if ok else 'facts loaded by .input into a relation with a choice-domain are inserted unguarded (and no semantic check forbids it): the final '
+           'relation can hold two tuples that agree on a declared key')
+
+
 MUTANTS = [
+    ('dedup-by-containment', 'src/ast/FunctionalConstraint.cpp', '    return keyNames == otherKeyNames;', '    return std::includes(keyNames.begin(), keyNames.end(), otherKeyNames.begin(), otherKeyNames.end());', 'R4'),
+    ('main-guard-selected-by-clause-syntax', S.CT, '''        if (isRecursive()) {
+            // If we are in a recursive clause, need to guard both new and original relation.''', '''        if (isRecursiveClause(clause)) {
+            // If we are in a recursive clause, need to guard both new and original relation.''', 'R2'),
     ('recursive-guard-forgets-main', S.CT, '''            dependencies.push_back(mk<ram::Negation>(mk<ram::ExistenceCheck>(
                     getConcreteRelationName(relation->getQualifiedName()), std::move(valsCopy))));''', '''            (void)valsCopy;''', 'R2'),
     ('interpreter-insert-before-check', 'src/interpreter/Engine.cpp', '''    if (!execute(shadow.getCondition(), ctxt)) {
@@ -160,6 +234,12 @@ def analyse(rep):
         ('src/synthesiser/Synthesiser.cpp', r'synthesiser/Synthesiser\.cpp$', r'CodeEmitter::visit_')])
     rep.add_units([eng, syn])
     rule_check_then_insert(rep, eng, syn)
+    fc, ut, sc = facts.extract([('src/ast/FunctionalConstraint.cpp', r'src/ast/FunctionalConstraint\.cpp$', r'equivalentConstraint'),
+                                ('src/ast2ram/seminaive/UnitTranslator.cpp', r'seminaive/UnitTranslator\.cpp$', r'generateLoadRelation'),
+                                ('src/ast/transform/SemanticChecker.cpp', r'transform/SemanticChecker\.cpp$', r'SemanticCheckerImpl::', None, None, r'getFunctionalDependencies')])
+    rep.add_units([fc, ut, sc])
+    rule_constraint_dedup(rep, fc)
+    rule_entry_paths(rep, ut, sc)
 
 
 def run(tier='quick'):
